@@ -317,7 +317,66 @@ def rule_parse_error_positions(ck):
                                 f"(line:char {line(want)}), the span starts at {line(first[0]) if first and first[0] is not None else None}", construct="parse error position")
 
 
+def rule_render_columns(ck):
+    """The graphical handler places its highlight with a cursor-column escape. Whatever the width of its gutter, moving the fault
+    along one line must move the highlight by the same number of DISPLAY columns (a tab = four), and the excerpt must show the
+    fault's own line number and the arrow line. The handler is executed whole (abstractly) for a fault at every character of a
+    line with tabs, on the first, a middle and the last line of a file."""
+    import re as _re
+    repo = ck.repo
+    I = eager_interp(repo)
+    I.summaries = {}
+    where = "reports::GraphicalHandler.__call__"
+    line = "ab\tcd\t\tef gh"
+    for prefix, suffix in (("", ""), ("x\n", "\nz\n"), ("x\ny\n", "")):
+        text = prefix + line + suffix
+        base = len(prefix)
+        lineno = prefix.count("\n") + 1
+        cols = {}
+        for k in range(len(line)):
+            if line[k] in " \t":
+                continue
+            p_ = base + k
+
+            def thunk(p_=p_):
+                C = I.module_get("context", "Context")
+
+                def at(pos):
+                    c = I.instantiate(C, ["a.mac", text], {})
+                    c.fields["pos"] = pos
+                    return c
+                h = I.instantiate(I.module_get("reports", "GraphicalHandler"), [], {})
+                I.call_method(h, "__call__", [I.module_get("reports", "error"), "some-id", (at(p_), at(p_ + 1), "msg")])
+                return "".join("".join(str(x) for x in e[1]) + "\n" for e in I.effects if e[0] == "print")
+            ps = I.explore(thunk)
+            if len(ps) != 1 or ps[0].kind != "return":
+                raise Unknown(f"GraphicalHandler on a fault at offset {p_} of {text!r}: {ps}")
+            out = ps[0].value
+            m = _re.search(r"\x1b\[(\d+)G", out)
+            nums = [int(x) for x in _re.findall(r"\x1b\[92m\s*(\d+)\x1b\[0m", out)]
+            ck.instance(("render-column", prefix, k), {"fault at character": k, "of line": lineno, "cursor column": int(m.group(1)) if m else None} if k in (0, 3) else None, fn=where)
+            if not m:
+                ck.violation(where, f"a fault at character {k} of line {lineno} of {text!r}: the excerpt contains no cursor-column escape for the highlight", construct="graphical highlight missing")
+                break
+            if lineno not in nums:
+                ck.violation(where, f"a fault on line {lineno} of {text!r}: the excerpt shows the line numbers {nums}, not the fault's own line", construct="graphical excerpt misses the fault's line")
+                break
+            if "msg" not in out:
+                ck.violation(where, f"a fault at character {k} of line {lineno}: the message text is not printed", construct="graphical message missing")
+                break
+            cols[k] = int(m.group(1))
+        else:
+            disp = lambda k: k + 3 * line[:k].count("\t")
+            k0 = min(cols)
+            bad = [(k, cols[k] - cols[k0], disp(k) - disp(k0)) for k in sorted(cols) if cols[k] - cols[k0] != disp(k) - disp(k0)]
+            if bad:
+                k, got, want = bad[0]
+                ck.violation(where, f"line {lineno} is {line!r}: moving the fault from character {k0} to character {k} moves the highlight by {got} columns, the text moves by {want} display columns (a tab counts as four): "
+                                    "the highlight is not under the offending token", construct="graphical highlight column")
+
+
 def run(ck):
+    ck.run_rule("C17.render", "graphical handler: the highlight follows the fault's display column (tab = 4), the excerpt shows the fault's line", 20, rule_render_columns)
     ck.run_rule("C17.perr", "faults planted in malformed statements: the first span of the first error starts at the offending token", 9, rule_parse_error_positions)
     ck.run_rule("C17.hoist", "nodes rebuilt by hoisting keep the spans of the text they stand for", 6, rule_hoist_spans)
     from ..rules import deliver
